@@ -123,6 +123,11 @@ def replace_acceptable(e):
     kind, _c, _o, _px, nqty, _a = e.pend
     if kind != "G":
         return False
+    if e.status == "9":
+        # A replace ACCEPTED while the order is suspended (Replaced + OrdStatus=Suspended) is not in the FIX 4.4
+        # matrices and tests/test_protocol_order_single.py pins that cell as an error: the exchange of this model
+        # answers such a request only after resuming (or rejects it) - unconstrained rather than demanded.
+        return False
     if e.status in LIVE:
         return True
     # C.1.c: a filled order takes a replace only if it increases the quantity
